@@ -42,6 +42,8 @@ type corpusLine struct {
 	Scen *Scen    `json:"scen,omitempty"`
 	Mat  *MatCase `json:"mat,omitempty"`
 	Sp   *SpCase  `json:"sp,omitempty"`
+	Sc   *ScCase  `json:"sc,omitempty"`
+	Hist *HistCase `json:"hist,omitempty"`
 }
 
 func readCorpus(path string) []corpusLine {
@@ -125,8 +127,36 @@ func corr(o Opts) {
 			sw.Count("outcome:returns:" + c.Call + ":" + c.Pat)
 		}
 	}
+	cw := NewCaseWriter(o.Out, "sc", hdrSc, "scmism", 150)
+	cw.Type = "sccase"
+	cw.Rule = "scalar operand is a cell: one call r.V<op>S(a, s) / r.M<op>S(a, s) (generic and concrete VADDS.. / MADDS..) on DENSE containers of all nine element types, receiver and operand views (slices, Slice/T) of shared integer-valued storages, op in + - *; the scalar is r.At(k) (k random / first / last), a.At(k), or a lone scalar object; operand = receiver or another storage; whole heap compared; non-trivial iff the scalar is a cell of the receiver or of the operand; distinct = full case"
+	cemit := func(c *ScCase, tag string) {
+		c.exec()
+		cw.Add(c.Coq(), corpusLine{Sc: c}, c.key(), c.SW != 2)
+		cw.Count("call:" + c.name())
+		cw.Count("type:" + c.Typ)
+		cw.Count("pattern:" + c.Pat)
+		cw.Count("stream:" + tag)
+		if c.Mat {
+			cw.Count("container:matrix")
+		} else {
+			cw.Count("container:vector")
+		}
+		if c.Fell {
+			cw.Count("concrete-twin-missing:" + c.name() + ":" + c.Typ)
+		}
+		if c.Panic {
+			cw.Count("outcome:panic")
+		}
+	}
 	// committed corpus first
 	for _, c := range readCorpus(o.Extra) {
+		if c.Sc != nil {
+			m := *c.Sc
+			if !m.Sparse && m.Op < 3 {
+				cemit(&m, "corpus")
+			}
+		}
 		if c.Sp != nil {
 			m := *c.Sp
 			m.Outs = nil
@@ -180,6 +210,28 @@ func corr(o Opts) {
 		}
 		emit(&reds[i], "reduction")
 	}
+	// receivers re-used over a history of orders: every step is a single-step case
+	hemit := func(h *HistCase, tag string) {
+		for i, c := range histCorr(h) {
+			if c.Kind == 3 {
+				continue
+			}
+			w.Add(coqCase(c), corpusLine{Hist: h}, fmt.Sprintf("%s#%d", h.key(), i), true)
+			w.Count("op:" + c.Ins.Op)
+			w.Count("pattern:history-step")
+			w.Count(fmt.Sprintf("outcome:%d", c.Kind))
+			w.Count("stream:" + tag)
+		}
+		w.Count("histories")
+	}
+	for _, c := range readCorpus(o.Extra) {
+		if c.Hist != nil {
+			hemit(c.Hist, "history-corpus")
+		}
+	}
+	for _, h := range histAll(o.Seed, full) {
+		hemit(h, "history")
+	}
 	w.Extra["scenarios_total"] = len(all) + len(reds)
 	if err := w.Flush(); err != nil {
 		Die("%v", err)
@@ -214,6 +266,13 @@ func corr(o Opts) {
 		}
 	}
 	if err := sw.Flush(); err != nil {
+		Die("%v", err)
+	}
+	// scalar operand = a cell of the receiver / of the operand (dense; the sparse ones are in the hunt)
+	for _, c := range scCorrCases(o.Seed, full) {
+		cemit(c, "generated")
+	}
+	if err := cw.Flush(); err != nil {
 		Die("%v", err)
 	}
 }
@@ -374,6 +433,8 @@ func hunt(o Opts) {
 		}
 	}
 	jetHunt(o.Seed, o.N, &out, add)
+	scHunt(o.Seed, o.N, &out, add)
+	histHunt(o.Seed, o.N, &out, add)
 	out.Found = len(out.Hits) > 0
 	b, _ := json.MarshalIndent(out, "", " ")
 	if err := os.WriteFile(filepath.Join(o.Out, "hunt.json"), b, 0644); err != nil {
@@ -476,6 +537,24 @@ func replay(o Opts) {
 			w.Add(m.Coq(), rp.Case, "replay", true)
 			w.Flush()
 		}
+		if rp.Case.Hist != nil {
+			w := NewCaseWriter(o.Out, "replay", hdrScalar, "mism", 1000)
+			w.Type = "case"
+			for i, c := range histCorr(rp.Case.Hist) {
+				if c.Kind != 3 {
+					w.Add(coqCase(c), rp.Case, fmt.Sprintf("replay#%d", i), true)
+				}
+			}
+			w.Flush()
+		}
+		if rp.Case.Sc != nil {
+			m := *rp.Case.Sc
+			m.exec()
+			w := NewCaseWriter(o.Out, "replay", hdrSc, "scmism", 1000)
+			w.Type = "sccase"
+			w.Add(m.Coq(), rp.Case, "replay", true)
+			w.Flush()
+		}
 		if rp.Case.Sp != nil {
 			m := *rp.Case.Sp
 			m.Outs = nil
@@ -508,6 +587,16 @@ func replay(o Opts) {
 		if rp.Hunt.Sp != nil {
 			if h := spOracle(rp.Hunt.Sp); h != nil {
 				still, fail = true, h.Failure
+			}
+		}
+		if rp.Hunt.Hist != nil {
+			same, al, fr, ka, kf := histOracle(rp.Hunt.Hist)
+			still = !same
+			fail = fmt.Sprintf("aliased %s, fresh %s", regStr(al, ka), regStr(fr, kf))
+		}
+		if rp.Hunt.Sc != nil {
+			if v := scOracle(rp.Hunt.Sc); v != nil {
+				still, fail = true, v.Failure
 			}
 		}
 		if rp.Hunt.Jet != nil {
